@@ -177,6 +177,9 @@ type Config struct {
 	Drain    []int                      // places leaving a connection's TX queue after each Y reply, cycled (empty = everything)
 	NulTerm  bool                       // texts of C and d frames carry a trailing NUL, as Direwolf sends them
 	Refuse   bool                       // answer C/v with a 'd' "*** DISCONNECTED RETRYOUT With <remote>" instead of connecting
+	// DocYOrder: the TNC follows the AGWPE document for 'Y' queries - CallFrom/CallTo "should reflect the order
+	// used to start the connection": a query in the other order names no connection it knows (count 0).
+	DocYOrder bool
 	ReplySeg func(kind byte, n int) Seg // segmentation of the n-th standard reply (nil: one write)
 	Hook     Hook
 }
@@ -196,6 +199,7 @@ func key(port uint8, x, y string) connKey {
 type connState struct {
 	connected   bool
 	outstanding int
+	starter     string // the call that started the connection ("" = not recorded)
 }
 
 // Sim is one simulated TNC listening on a loopback TCP port. It serves a single host link.
@@ -375,7 +379,7 @@ func (s *Sim) standardReplies(f Frame) []Out {
 		if s.cfg.Refuse {
 			return []Out{mk(Frame{Port: f.Port, Kind: 'd', From: f.To, To: f.From, Data: s.text("*** DISCONNECTED RETRYOUT With " + f.To + "\r")}, -1)}
 		}
-		s.conns[k] = &connState{connected: true}
+		s.conns[k] = &connState{connected: true, starter: f.From}
 		return []Out{mk(Frame{Port: f.Port, Kind: 'C', From: f.To, To: f.From, Data: s.text("*** CONNECTED With Station " + f.To + "\r")}, -1)}
 	case 'D':
 		k := key(f.Port, f.From, f.To)
@@ -391,6 +395,9 @@ func (s *Sim) standardReplies(f Frame) []Out {
 		k := key(f.Port, f.From, f.To)
 		n := 0
 		c := s.conns[k]
+		if c != nil && s.cfg.DocYOrder && c.starter != "" && f.From != c.starter {
+			c = nil // asked in the wrong order: not a connection this TNC knows
+		}
 		if c != nil {
 			n = c.outstanding
 		}
@@ -522,7 +529,7 @@ func (s *Sim) SendRaw(b []byte, seg Seg, note string) error {
 // marks the link as connected in the simulator.
 func (s *Sim) InboundConnect(port uint8, remote, mycall string, seg Seg) error {
 	s.mu.Lock()
-	s.conns[key(port, remote, mycall)] = &connState{connected: true}
+	s.conns[key(port, remote, mycall)] = &connState{connected: true, starter: remote}
 	s.mu.Unlock()
 	return s.Send(Frame{Port: port, Kind: 'C', From: remote, To: mycall, Data: s.text("*** CONNECTED To Station " + remote + "\r")}, seg)
 }
